@@ -25,12 +25,13 @@ func New[T comparable]() *Notifier[T] {
 	}
 }
 
-func (v *Notifier[T]) removeListener(value T) {
+func (v *Notifier[T]) removeListener(value T, channel chan struct{}) {
 	v.mutex.Lock()
 	defer v.mutex.Unlock()
 
 	valueListeners, exists := v.listeners.Get(value)
-	if !exists {
+	if !exists || valueListeners.channel != channel {
+		// the listeners of this channel were already notified (the entry, if any, belongs to newer listeners)
 		return
 	}
 	valueListeners.count--
@@ -49,8 +50,10 @@ func (v *Notifier[T]) Listener(value T) *Listener {
 
 	if valueListener, exists := v.listeners.Get(value); exists {
 		valueListener.count++
-		return newListener(valueListener.channel, func() {
-			v.removeListener(value)
+		channel := valueListener.channel
+
+		return newListener(channel, func() {
+			v.removeListener(value, channel)
 		})
 	}
 
@@ -58,7 +61,7 @@ func (v *Notifier[T]) Listener(value T) *Listener {
 	v.listeners.Set(value, &listener{msgProcessedChan, 1})
 
 	return newListener(msgProcessedChan, func() {
-		v.removeListener(value)
+		v.removeListener(value, msgProcessedChan)
 	})
 }
 
